@@ -41,10 +41,10 @@ def obligations(tier, seed):
     garb_q = [dict(TS=0, LEN1=40, LEN2=0), dict(TS=0, LEN1=64, LEN2=0), dict(TS=0, LEN1=30, LEN2=40), dict(TS=1, LEN1=100, LEN2=97)]
     garb_t = garb_q + [dict(TS=0, LEN1=1, LEN2=60), dict(TS=0, LEN1=47, LEN2=49), dict(TS=0, LEN1=48, LEN2=48), dict(TS=0, LEN1=100, LEN2=0),
                        dict(TS=0, LEN1=60, LEN2=60), dict(TS=1, LEN1=197, LEN2=0), dict(TS=1, LEN1=200, LEN2=10), dict(TS=1, LEN1=9, LEN2=188)]
-    du_q = [dict(DUL=16, RAW=0), dict(DUL=3, RAW=0)]
-    du_t = du_q + [dict(DUL=d, RAW=0) for d in (2, 4, 8, 24, 48, 64, 138)]
+    du_q = [dict(DUL=46, RAW=0), dict(DUL=7, RAW=0)]
+    du_t = du_q + [dict(DUL=d, RAW=0) for d in (3, 4, 5, 6, 8, 16, 17, 18, 47, 48, 138, 257, 259)]
     return [
-        Ob("wrap_around_step", func="h_wrap_step", unwind=12, solver="cadical",
+        Ob("wrap_around_step", defines={"G_WRAP": None}, func="h_wrap_step", unwind=12, solver="cadical",
            desc="INV-STEP refinement of the real static wrap_around(): symbolic skip (32 bit), lookahead <= CAP, leftover, bp, src_left <= SS, symbolic wrap buffer, "
                 "previous-buffer bytes and source buffer; invariant = the leftover bytes are the stream bytes just before *src.  Decides: no access outside the "
                 "exact-size wrap buffer / source buffer, cursor conservation (no byte skipped or seen twice), invariant re-established, TRUE => window [*dst, *scan_end + "
@@ -54,7 +54,7 @@ def obligations(tier, seed):
                     "(packet_length - 40 <= 65495 < 65552) is an argument by reading, not a solver verdict"],
            outside="capacity 65552 itself (the function is size-generic: no constant of the buffer size occurs in it)",
            grid=wrap_q, reach=["end", "wrapped", "in_place", "need_more"], timeout=900, mem_gb=4, vin_size=400, **common),
-        Ob("wrap_around_step_16", func="h_wrap_step", unwind=26, solver="cadical", tier="thorough",
+        Ob("wrap_around_step_16", defines={"G_WRAP": None}, func="h_wrap_step", unwind=26, solver="cadical", tier="thorough",
            desc="INV-STEP refinement of the real static wrap_around(): symbolic skip (32 bit), lookahead <= CAP, leftover, bp, src_left <= SS, symbolic wrap buffer, "
                 "previous-buffer bytes and source buffer; invariant = the leftover bytes are the stream bytes just before *src.  Decides: no access outside the "
                 "exact-size wrap buffer / source buffer, cursor conservation (no byte skipped or seen twice), invariant re-established, TRUE => window [*dst, *scan_end + "
@@ -64,11 +64,11 @@ def obligations(tier, seed):
                     "(packet_length - 40 <= 65495 < 65552) is an argument by reading, not a solver verdict"],
            outside="capacity 65552 itself (the function is size-generic: no constant of the buffer size occurs in it)",
            grid=wrap_t, reach=["end", "wrapped", "in_place", "need_more"], timeout=2400, mem_gb=4, vin_size=400, **common),
-        Ob("reset_init", func="h_reset_init", unwind=10, unwindset={"memset.0": 300},
+        Ob("reset_init", defines={"G_INIT": None}, func="h_reset_init", unwind=10, unwindset={"memset.0": 300},
            desc="vbi_dvb_demux_reset on an object with dirty control fields establishes the wrap_around invariant for both contexts and the initial frame/TS state "
                 "(INIT |= I; basis of the directly constructed demux objects)",
            encodes=["vbi_dvb_demux_reset"], bounds="none", timeout=120, vin_size=128, **common),
-        Ob("split_equiv_pes", func="h_split_equiv", unwind=50, unwindset=uw_seq, flags=fs, patch=RF_PATCH,
+        Ob("split_equiv_pes", defines={"G_SEQ": None}, func="h_split_equiv", unwind=50, unwindset=uw_seq, flags=fs, patch=RF_PATCH,
            desc="real vbi_dvb_demux_feed (PES): stream of two valid 184 byte VBI PES packets (structure SHAPE: new frame / continuation in field 2 / stuffing in the "
                 "middle / illegal line / unknown+private units and duplicate line; both PTS and all unit payloads symbolic) fed whole vs. cut at CUT (and CUT2): identical "
                 "callback sequence (count, lines, PTS, line contents), identical pending frame and frame state, identical resume position; representation invariant after every call",
@@ -78,29 +78,29 @@ def obligations(tier, seed):
            outside="unit structure symbolic (frame.sp symbolic: see DESIGN R2; covered for one unit by split_equiv_symunit in thorough); PES packets > 184 bytes",
            grid=split_t, quick_grid=split_q, reach=["end"], timeout=600, mem_gb=3, vin_size=400, **common),
         Ob("split_equiv_ts", func="h_split_equiv", unwind=50, unwindset=uw_seq, flags=fs, patch=SCALE_PATCH,
-           defines={"SCALED_PES_BUFFER": 1, "PESCAP_SCALED": 256},
+           defines={"G_SEQ": None, "SCALED_PES_BUFFER": 1, "PESCAP_SCALED": 256},
            desc="same for the TS demultiplexer: two 188 byte transport packets (PID 0x123, payload_unit_start, continuity 5,6) carrying the two PES packets; sync search, "
                 "header collection across cuts, payload reassembly into pes_buffer",
            encodes=["vbi_dvb_demux_feed", "demux_ts_packet", "demux_pes_packet_frame", "valid_vbi_pes_packet_header", "extract_data_units"],
            assumes=ts_assumes, bounds="2 TS packets (376 bytes); cuts on the grid", outside="adaptation fields, PID mismatch, continuity errors in the split runs (see garbage_*)",
            grid=tsplit_t, quick_grid=tsplit_q, reach=["end"], timeout=600, mem_gb=3, vin_size=400, **common),
         Ob("split_equiv_symunit", func="h_split_equiv", unwind=50, unwindset=uw_seq, flags=fs, patch=RF_PATCH, tier="thorough", solver="cadical",
-           defines={"SHAPE": 5, "OUT_BYTES": 1, "TS": 0},
+           defines={"G_SEQ": None, "SHAPE": 5, "OUT_BYTES": 1, "TS": 0},
            desc="as split_equiv_pes with the first data unit of packet 2 fully symbolic (data_unit_id, field parity/line_offset, framing code, payload): continuation, "
                 "new frame, illegal line, unknown unit, stuffing are all in play; output array byte-backed (R2(f))",
            encodes=["vbi_dvb_demux_feed", "demux_pes_packet", "extract_data_units", "line_address"], assumes=seq_assumes,
            bounds="cuts on the grid", grid=[dict(CUT=c) for c in (47, 184, 231, 300)], reach=["end", "frame_delivered", "frame_continued"],
            timeout=900, mem_gb=8, vin_size=400, **common),
-        Ob("cor_equiv", func="h_cor_equiv", unwind=50, unwindset=dict(uw_seq, **{"h_cor_equiv.3": 4}), flags=fs, patch=RF_PATCH,
+        Ob("cor_equiv", defines={"G_SEQ": None}, func="h_cor_equiv", unwind=50, unwindset=dict(uw_seq, **{"h_cor_equiv.3": 4}), flags=fs, patch=RF_PATCH,
            desc="vbi_dvb_demux_cor (callback NULL) on the same stream returns the frames the callback interface delivers (lines, PTS), consumes the whole stream",
            encodes=["vbi_dvb_demux_cor", "demux_pes_packet", "demux_pes_packet_frame"], assumes=seq_assumes, bounds="2 packets, shapes 0..2",
            grid=[dict(TS=0, SHAPE=s) for s in (0, 1, 2, 3, 4)], quick_grid=[dict(TS=0, SHAPE=0)], reach=["end"], timeout=600, mem_gb=3, vin_size=400, **common),
-        Ob("bytewise_equiv", func="h_bytewise_equiv", unwind=50, unwindset=dict(uw_seq, **{"h_bytewise_equiv.1": 380, "demux_pes_packet.3": 6}), flags=fs, patch=RF_PATCH,
+        Ob("bytewise_equiv", defines={"G_SEQ": None}, func="h_bytewise_equiv", unwind=50, unwindset=dict(uw_seq, **{"h_bytewise_equiv.1": 380, "demux_pes_packet.3": 6}), flags=fs, patch=RF_PATCH,
            tier="thorough",
            desc="368 single-byte feeds equal one whole feed (same checks as split_equiv_pes)", encodes=["vbi_dvb_demux_feed", "demux_pes_packet", "wrap_around"],
            assumes=seq_assumes, bounds="2 packets, shapes 0 and 1", grid=[dict(TS=0, SHAPE=0), dict(TS=0, SHAPE=1)], reach=["end"],
            timeout=900, mem_gb=6, vin_size=400, **common),
-        Ob("garbage_feed", func="h_garbage", unwind=50, flags=fs, patch=RF_PATCH, solver="cadical",
+        Ob("garbage_feed", defines={"G_SEQ": None}, func="h_garbage", unwind=70, unwindset={"memcpy.0": 202, "memmove.0": 202, "memmove.1": 202, "memset.0": 300}, flags=fs, patch=RF_PATCH, solver="cadical",
            desc="LEN1 (+LEN2) fully symbolic bytes fed from reset to the PES resp. TS demultiplexer, callback result symbolic: all safety properties of dvb_demux.c "
                 "(exact-size source buffers, pes_buffer/ts_buffer, pointer arithmetic, overflow, shift), termination inside the unwind bounds, representation invariant "
                 "after each call, feed returns TRUE unless the callback refused",
@@ -109,21 +109,24 @@ def obligations(tier, seed):
                                       "packet length the garbage announces); TS runs use the real 65552 byte pes_buffer"],
            bounds="buffer lengths on the grid (<= 100+97 bytes): no complete 184 byte packet fits, so data-unit extraction is covered by data_units_garbage instead",
            grid=garb_t, quick_grid=garb_q, reach=["end"], timeout=900, mem_gb=6, vin_size=400, **common),
-        Ob("data_units_garbage", func="h_data_units", unwind=43, unwindset={"memcpy.0": 1100}, solver="cadical", nafs=True,
-           desc="extract_data_units on a fully symbolic DUL byte payload (exact-size object) from a symbolic frame state (sp anywhere in [begin,end], any last line/field/"
-                "unit id/extracted count), frame.raw == NULL as in every state the public API can reach: no access outside payload or output array, sp stays inside, "
-                "success consumes everything, an error leaves *src at the offending unit with *src_left the rest, error codes in the documented range",
-           encodes=["extract_data_units", "line_address", "lofp_to_line"], bounds="payload length DUL on the grid (3, 16 quick; up to 138 thorough)",
-           outside="frame.raw != NULL (not reachable through the public API: vbi_dvb_demux_reset never sets it; see report: latent p[5] over-read)",
-           grid=du_t, quick_grid=du_q, reach=["end", "ok", "error"], timeout=900, mem_gb=6, vin_size=1000, **common),
-        Ob("recovery_units", func="h_recovery", unwind=50, unwindset=uw_seq, flags=fs, patch=RF_PATCH, defines={"DAMAGE_UNITS_ONLY": 1, "TS": 0, "LOGN": 4},
+        Ob("data_units_garbage", defines={"G_DU": None}, func="h_data_units", unwind=43, unwindset={"memcpy.0": 300, "extract_data_units.8": 2}, solver="cadical",
+           desc="INV-STEP over the data-unit loop of extract_data_units: one fully symbolic data unit (payload of DUL bytes, exact-size object, first unit reaching to "
+                "within 2 bytes of the end) from ANY frame state (sp anywhere in [begin,end], any last line/field/unit id/extracted count), frame.raw == NULL as in every "
+                "state the public API can reach: no access outside payload or output array, sp stays inside the array (= the invariant, so payloads with any number of such "
+                "units follow by induction), success consumes everything, an error leaves *src at the offending unit with *src_left the rest, error codes in range",
+           encodes=["extract_data_units", "line_address", "lofp_to_line"], bounds="payload/unit length DUL on the grid (7, 46 quick; 3..259 thorough); output array of 3 lines",
+           assumes=["first data unit covers the payload up to the last 2 bytes (single loop iteration; induction over sp in [begin,end])",
+                    "R2(f): output array byte-backed"],
+           outside="frame.raw != NULL (not reachable through the public API: vbi_dvb_demux_reset never sets it; see report: latent p[5] over-read and sp underflow)",
+           grid=du_t, quick_grid=du_q, reach=["end", "ok", "error", "line_stored"], timeout=900, mem_gb=6, vin_size=600, **common),
+        Ob("recovery_units", func="h_recovery", unwind=50, unwindset=uw_seq, flags=fs, patch=RF_PATCH, defines={"G_SEQ": None, "DAMAGE_UNITS_ONLY": 1, "TS": 0, "LOGN": 4},
            desc="damaged packet (valid header, all three data units symbolic except their length bytes) followed by intact packets A, B, C (one Teletext line each, symbolic "
                 "payload/PTS): frame B is delivered exactly (line 7, payload, PTS of B), C is pending with its PTS - whatever the damage",
            encodes=["vbi_dvb_demux_feed", "demux_pes_packet", "demux_pes_packet_frame", "extract_data_units"], assumes=seq_assumes,
            bounds="4 packets of 184 bytes, whole feed", outside="damage that changes data_unit_length bytes or the PES header (recovery_header, thorough)",
            reach=["end"], solver="cadical", timeout=900, mem_gb=6, vin_size=600, **common),
         Ob("recovery_header", func="h_recovery", unwind=50, unwindset=dict(uw_seq, **{"extract_data_units.8": 71, "log_cb.0": 34}), flags=fs, patch=RF_PATCH, tier="thorough",
-           defines={"TS": 0, "LOGN": 4, "OUTN": 32, "OUT_BYTES": 1}, solver="cadical",
+           defines={"G_SEQ": None, "TS": 0, "LOGN": 4, "OUTN": 32, "OUT_BYTES": 1}, solver="cadical",
            desc="as recovery_units but everything behind PES_packet_length of the damaged packet is symbolic (flags, PTS, header length, data_identifier, all unit ids/lengths)",
            encodes=["vbi_dvb_demux_feed", "demux_pes_packet", "valid_vbi_pes_packet_header", "extract_data_units"], assumes=seq_assumes,
            bounds="4 packets of 184 bytes, whole feed; output array 32 lines (a 138 byte payload holds at most 23 units)", reach=["end"],
